@@ -167,7 +167,16 @@ def run(ctx, rep):
     # the operator reached through a specialised instruction (`x op literal` on a local) is the same operator
     rep.rule('R06.7', 'the specialised instructions (variable op literal) apply the same primitive as the generic instruction of their operator: type errors and range errors included')
     from rules import c10
-    c10.check_fused_equals_generic(ctx, rep, 'R06.7')
+    c10.check_fused_equals_generic(ctx, rep, 'R06.7', 'R06.10')
+    rep.rule('R06.10', 'the specialised instructions read the operand the source names: they take a frame slot, so they are selected only where the variable was resolved to a local of the current function (a global inside a function keeps the generic form)')
+    from rules import csa_run as _cr
+    n10 = 0
+    for v_ in _cr.analyse(ctx)['violations']:
+        if v_['oblig'] == 'O8-scope':
+            n10 += 1
+            rep.bad('R06.10', 'compiler::Compiler::' + v_['method'], v_['construct'], v_['text'], 'src/compiler.rs', key=v_['kc'])
+    if not n10:
+        rep.good('R06.10', 'compiler::Compiler', 'slot operands of the specialised instructions', 'every emit site of a frame-slot instruction is under a test that the symbol is local', 'src/compiler.rs')
     rep.rule('R06.9', 'operands are decoded as what they are: a value is decoded only as what it is: every as_int / as_bool / as_function is preceded on every path by a test that the object has that tag (the decoders only shift the word: `ja` would read as 1, null as 0)')
     from rules import unsafe_inv as _ui
     _ui.check_immediates(ctx, rep, 'R06.9')
